@@ -766,9 +766,13 @@ def cancellation_slack(dtype, vals, vmin, vmax):
     magnitude; relative to the span vmax - vmin that is eps * scale / span (catastrophic cancellation when
     the data's spread is tiny next to its magnitude — inherent to the dtype, outside the theorems).
     Factor 4 of margin.  float64 data and integer data (computed in float64) keep the fixed slack."""
-    if dtype not in ("float16", "float32") or not (vmax > vmin):
+    if dtype not in ("float16", "float32") or not (vmax >= vmin):
         return 0.0
     scale = max([abs(vmin), abs(vmax)] + [abs(v) for v in vals if math.isfinite(v)])
+    if vmax == vmin:
+        # degenerate interval: the map is `x - vmin` without the division, the same one-ulp error of the cast
+        # limit shows up unscaled (thorough-tier false alarm: manual vmin = vmax = 1000.00095 on float32 data)
+        return 4.0 * float(np.finfo(dtype).eps) * scale
     return 4.0 * float(np.finfo(dtype).eps) * scale / (vmax - vmin)
 
 
